@@ -1957,6 +1957,18 @@ class CheckImplied(todict.PrintNode):
         self.expr = expr
         self.decls = decls
 
+    def argument_name(self, node):
+        """Return the name of the argument of size, len or len_trim.
+        It must be the name of an argument, not an expression.
+        """
+        name = getattr(node.args[0], "name", None)
+        if name is None:
+            raise RuntimeError(
+                "{}:Argument of '{}' must be the name of an argument: {}".format(
+                    self.context.linenumber, node.name, self.expr)
+            )
+        return name
+
     def visit_Identifier(self, node):
         """Check arguments to implied attribute.
 
@@ -1973,7 +1985,7 @@ class CheckImplied(todict.PrintNode):
                     "{}:Too many arguments to 'size': ".format(
                         self.context.linenumber, self.expr)
                 )
-            argname = node.args[0].name
+            argname = self.argument_name(node)
             arg = declast.find_arg_by_name(self.decls, argname)
             if arg is None:
                 raise RuntimeError(
@@ -1988,7 +2000,7 @@ class CheckImplied(todict.PrintNode):
                     "{}:Too many arguments to '{}': {}".format(
                         self.context.linenumber, node.name, self.expr)
                 )
-            argname = node.args[0].name
+            argname = self.argument_name(node)
             arg = declast.find_arg_by_name(self.decls, argname)
             if arg is None:
                 raise RuntimeError(
